@@ -127,6 +127,14 @@ type iterInfo struct {
 }
 
 func newExec(P *Program, S *Specs, prop, mode string) *Exec {
+	ex := newExec0(P, S, prop, mode)
+	for _, c := range [][2]string{{"M_Int", "Int"}, {"M_Bool", "Bool"}, {"M_Str", "Str"}, {"M_Ref", "Int"}, {"M_Iface", "Iface"}, {"M_Slice", "Slice"}, {"M_Real", "Real"}} {
+		ex.arrSorts[c[0]] = Sort("(Array Int " + c[1] + ")")
+	}
+	return ex
+}
+
+func newExec0(P *Program, S *Specs, prop, mode string) *Exec {
 	return &Exec{P: P, S: S, D: newDecls(), Prop: prop, Mode: mode, notes: map[string]bool{}, arrSorts: map[string]Sort{}, mapKeySort: map[string]Sort{},
 		declaredConst: map[string]bool{}, declaredFun: map[string]bool{}, obNames: map[string]int{}, unknownCalls: map[string]int{}, usedSpecs: map[string]bool{}, closureByTerm: map[string]*closureRec{}}
 }
@@ -741,6 +749,7 @@ func (fr *Frame) instr(in ssa.Instruction) {
 		for _, r := range x.Results {
 			rs = append(rs, fr.val(r))
 		}
+		fr.returnSiteClauses(x, rs)
 		fr.returns = append(fr.returns, retRec{reach: fr.curReach, results: rs, mem: fr.curMem, instr: x})
 	case *ssa.Panic:
 		fr.panicked = append(fr.panicked, fr.curReach)
@@ -1249,4 +1258,48 @@ func allocGetsObjectField(a *ssa.Alloc) bool {
 		}
 	}
 	return false
+}
+
+// returnSiteClauses checks "at return#N assert E" clauses (N = ordinal of the return statement in source order;
+// "at return assert E" applies to every return).
+func (fr *Frame) returnSiteClauses(x *ssa.Return, rs []Val) {
+	ex := fr.ex
+	if !fr.isTop || ex.topContract == nil {
+		return
+	}
+	var rets []*ssa.Return
+	for _, b := range fr.fn.Blocks {
+		if b == fr.fn.Recover {
+			continue
+		}
+		for _, in := range b.Instrs {
+			if r, ok := in.(*ssa.Return); ok {
+				rets = append(rets, r)
+			}
+		}
+	}
+	sort.SliceStable(rets, func(i, j int) bool { return rets[i].Pos() < rets[j].Pos() })
+	ord := 0
+	for i, r := range rets {
+		if r == x {
+			ord = i + 1
+		}
+	}
+	for i, s := range ex.topContract.Sites {
+		if s.Callee != "return" || (s.Ord != 0 && s.Ord != ord) {
+			continue
+		}
+		ec := fr.evalCtx(fr.curMem, ex.topEntry)
+		names := map[string]Val{}
+		bindResultNames(names, fr.fn.Signature, rs)
+		ec.names = names
+		ec.goal = true
+		g, err := ec.tryBool(s.Cl.E)
+		if err != nil {
+			ex.failOb("contract-typechecks", fmt.Sprintf("return#%d", ord), err.Error()+" in "+s.Cl.Src, x.Pos())
+			continue
+		}
+		ex.oblige("assert", fmt.Sprintf("return#%d.%d", ord, i+1), g, fr.curReach, "assertion at return: "+s.Cl.Src, x.Pos(), s.Cl.Prop)
+		ex.assume(g, fr.curReach)
+	}
 }
